@@ -8,3 +8,5 @@ import RenetVerif.Lemmas.SrcEquiv.Slice
 import RenetVerif.Lemmas.SrcEquiv.Packet
 import RenetVerif.Lemmas.SrcEquiv.Acks
 import RenetVerif.Lemmas.SrcEquiv.TokenTable
+import RenetVerif.Lemmas.SrcEquiv.NcSerialize
+import RenetVerif.Lemmas.SrcEquiv.NcToken
